@@ -30,11 +30,9 @@ func main() {
 	stack.FrontEndReset = func() { initDone = false }
 	if *quiet {
 		stack.Quiet()
-		// the front end prints START/END/REPORT lines to stdout
-		if devnull, err := os.OpenFile(os.DevNull, os.O_WRONLY, 0); err == nil {
-			os.Stdout = devnull
-		}
 	}
+	// the front end prints START/END/REPORT lines to stdout: part of the recorded run
+	stack.CaptureStdout()
 	if err := stack.RunFile(*in, *out, *from); err != nil {
 		fmt.Fprintf(os.Stderr, "run: %v\n", err)
 		os.Exit(2)
